@@ -1,6 +1,7 @@
 import Driver.Common
 import LinkVerif.Model.Protocol
 import LinkVerif.Model.Node
+import LinkVerif.Model.Ticker
 
 namespace Driver.C01
 open Go.Proto Model.Protocol Driver
@@ -126,6 +127,27 @@ def nsStep (st : NS) (toks : List String) : NS × String :=
       | _, _ => (st, "bad-op")
   | _, _ => (st, "bad-op")
 
+/-- `tick mode=burst|each seq=H.R.S,H.R.S,…`: the REAL timeout ticker against Model.Ticker.
+burst: all schedules at once with one long duration — exactly the pending timeout fires; each: one schedule at a time with a
+short duration — an accepted one fires, a stale one does not ("-") -/
+def tickAns (toks : List String) : String :=
+  let get (k : String) : String := (toks.filterMap (fun t => if t.startsWith (k ++ "=") then some ((t.drop (k.length + 1)).toString) else none)).headD ""
+  let parse (x : String) : Option Model.Ticker.TI :=
+    match x.splitOn "." with
+    | [h, r, st] => match h.toNat?, r.toInt?, st.toNat? with
+      | some h, some r, some st => some ⟨h, r, st⟩
+      | _, _, _ => none
+    | _ => none
+  let seq := (get "seq").splitOn "," |>.filterMap parse
+  let showTI (t : Model.Ticker.TI) : String := s!"{t.h}.{t.r}.{t.s}"
+  if get "mode" == "burst" then
+    if seq.isEmpty then "fired=-" else s!"fired={showTI (Model.Ticker.pending Model.Ticker.zero seq)}"
+  else
+    let rec go (ti : Model.Ticker.TI) : List Model.Ticker.TI → List String
+      | [] => []
+      | n :: ns => if Model.Ticker.stale ti n then "-" :: go ti ns else showTI n :: go n ns
+    s!"fired={",".intercalate (go Model.Ticker.zero seq)}"
+
 def step (s : NS) (toks : List String) : NS × String :=
   match toks with
   | "case" :: _ => (NS.init, "ok")
@@ -134,6 +156,7 @@ def step (s : NS) (toks : List String) : NS × String :=
   | "diag" :: _ => (s, "dead=0 killed=0 badvotes=0")
   | "hist" :: _ => (s, checkHist toks)
   | "ns" :: _ => nsStep s toks
+  | "tick" :: _ => (s, tickAns toks)
   | _ => (s, "bad-op")
 
 def machine : Machine := { σ := NS, init := NS.init, step := step }
